@@ -21,7 +21,7 @@ TRUSTED = [
     "RemoteSpawn is delivered in process (target.SpawnSingleton with the request's singleton spec); the wire codec and remote_server option plumbing are not exercised",
     "phase granularity: code between two gates is executed atomically in the model; the gate sits in the singleton's PreStart",
 ]
-RULE = ("scripts over 2-4 nodes: SpawnSingleton full/held from any node, leader-view changes (all nodes or one), kills; "
+RULE = ("scripts over 2-4 nodes: SpawnSingleton full/held from any node, followers of a held call (waiting, cancelled, joined), leader-view changes (all nodes or one), kills; "
         "non-trivial = the harness produced a digest; distinct by (case, output)")
 EXPLANATION = "Each script runs on fresh real actor systems (one per node) sharing the fake registry and on the Lean model; results and digest (registry owner, live instances per node, max simultaneous, started, held calls, registry operation log) must be equal."
 
@@ -35,10 +35,10 @@ TIMEOUT = 1200
 REPO = os.environ.get("VERIF_REPO", "/repo")
 
 
-def _case(rng, views=True, kills=True):
+def _case(rng, views=True, kills=True, followers=True):
     nn = rng.choice([2, 2, 3, 3, 4])
     n = rng.randint(2, 12)
-    toks, held = [], []
+    toks, held, fol = [], [], []
     if views and rng.random() < 0.5:
         # a (possibly partial) leader change up front
         k = rng.randrange(nn)
@@ -47,15 +47,27 @@ def _case(rng, views=True, kills=True):
                 toks.append(f"L.{i}.{k}")
     for _ in range(n):
         r = rng.random()
-        if r < 0.35:
+        if r < 0.30:
             toks.append(f"X.{rng.randrange(nn)}")
-        elif r < 0.55:
+        elif r < 0.50:
             c = rng.randrange(nn)
             toks.append(f"bX.{c}")
             held.append(c)
-        elif r < 0.70 and held:
+        elif r < 0.62 and held:
             toks.append(f"eX.{held.pop(rng.randrange(len(held)))}")
-        elif views and r < 0.88:
+        elif r < 0.72 and held and followers:
+            # followers of the held flight: a second caller, possibly cancelled, then a third one
+            c = rng.randrange(nn)
+            toks.append(f"fX.{c}")
+            fol.append(c)
+            if rng.random() < 0.5:
+                toks.append(f"cX.{c}")
+                fol.remove(c)
+                toks.append(f"fX.{rng.randrange(nn)}")
+        elif r < 0.76 and fol:
+            c = fol.pop(rng.randrange(len(fol)))
+            toks.append(rng.choice([f"cX.{c}", f"jX.{c}"]))
+        elif views and r < 0.90:
             if rng.random() < 0.5:
                 k = rng.randrange(nn)
                 for i in range(nn):
@@ -69,17 +81,20 @@ def _case(rng, views=True, kills=True):
     if rng.random() < 0.8:
         for c in held:
             toks.append(f"eX.{c}")
+        for c in set(fol):
+            toks.append(f"jX.{c}")
     return f"{nn} | " + " ".join(toks)
 
 
+# every follower operation costs the harness its grace period (0.3 s): they are generated in a fraction of the scripts
 def gen_cases(rng, tier):
-    n = 120 if tier == "quick" else 2500
-    return list(SRC_FACTS) + [_case(rng) for _ in range(n)]
+    n, pf = (120, 0.35) if tier == "quick" else (2500, 0.08)
+    return list(SRC_FACTS) + [_case(rng, followers=rng.random() < pf) for _ in range(n)]
 
 
 def search_cases(rng, tier):
     n = 400 if tier == "quick" else 3000
-    return [_case(rng, views=False) for _ in range(n)] + [_case(rng) for _ in range(n)]
+    return [_case(rng, views=False, followers=rng.random() < 0.1) for _ in range(n)] + [_case(rng, followers=rng.random() < 0.1) for _ in range(n)]
 
 
 def compare(case, impl, model):
@@ -151,4 +166,6 @@ def tag(case, impl):
         t.append("held")
     if "K." in case:
         t.append("kill")
+    if "fX." in case:
+        t.append("follower")
     return "nodes=" + case.split("|")[0].strip() + " " + ("+".join(t) or "plain")
